@@ -145,6 +145,11 @@ class Gen:
                     node["c"] = self.block(depth + 1, c3, rng.randrange(1, 3))
             if "f" in shape:
                 node["f"] = self.block(depth + 1, dict(ctx, in_finally=True, in_try=ctx.get("in_try")), rng.randrange(1, 3))
+            # blocks that are really empty in the source text (no probe call either)
+            if rng.random() < 0.12:
+                part = rng.choice([x for x in ("b", "c", "f") if node[x] is not None])
+                node[part] = []
+                node.setdefault("bare", []).append(part)
             return node
         if name == "loop":
             lid = self.nid()
@@ -272,10 +277,17 @@ def r_stmt(s, ind=""):
         return "%svar x%d = %s; x%d = [1, %s, 2].length; %s;" % (ind, s["k"], s["src"], s["k"], s["src"], s["src"])
     if t == "try":
         out = "%stry {\n%s\n%s}" % (ind, r_block(s["b"], i2), ind)
+        bare = s.get("bare", ())
         if s["c"] is not None:
-            out += " catch (e%d) {\n%spc(%d, desc(e%d));\n%s\n%s}" % (s["id"], i2, s["id"], s["id"], r_block(s["c"], i2), ind)
+            if "c" in bare:
+                out += " catch (e%d) { }" % s["id"]
+            else:
+                out += " catch (e%d) {\n%spc(%d, desc(e%d));\n%s\n%s}" % (s["id"], i2, s["id"], s["id"], r_block(s["c"], i2), ind)
         if s["f"] is not None:
-            out += " finally {\n%spf(%d);\n%s\n%s}" % (i2, s["id"], r_block(s["f"], i2), ind)
+            if "f" in bare:
+                out += " finally { }"
+            else:
+                out += " finally {\n%spf(%d);\n%s\n%s}" % (i2, s["id"], r_block(s["f"], i2), ind)
         return out
     if t == "loop":
         i, n, kind = s["id"], s["n"], s["kind"]
@@ -502,9 +514,12 @@ class Model:
             raise AssertionError(t)
 
     def do_try(self, s, env):
+        bare = s.get("bare", ())
+
         def fin():
             if s["f"] is not None:
-                self.log.append(["pf", s["id"]])
+                if "f" not in bare:
+                    self.log.append(["pf", s["id"]])
                 self.block(s["f"], env)
         try:
             try:
@@ -512,7 +527,8 @@ class Model:
             except JSThrow as e:
                 if s["c"] is None:
                     raise
-                self.log.append(["pc", s["id"], e.desc])
+                if "c" not in bare:
+                    self.log.append(["pc", s["id"], e.desc])
                 self.block(s["c"], env)
         except BaseException:
             # abrupt completion of try or catch: finally runs, and its own abrupt completion wins
@@ -942,6 +958,8 @@ def features(case, res=None):
                 feats.add("d")
         elif t == "try":
             feats.add("try:" + ("c" if s["c"] is not None else "") + ("f" if s["f"] is not None else ""))
+            for part in s.get("bare", ()):
+                feats.add("empty-block:" + part)
         elif t == "loop":
             feats.add("loop:" + s["kind"])
         elif t == "native":
